@@ -169,6 +169,9 @@ def monitor(script, c):
                 if sig != "rfc6904-keystream-not-positional":
                     return hits
         elif t[1] == "X":
+            pw = out.get(i - 3, [])
+            if len(pw) > 2 and int(pw[2], 16) != 0:
+                continue       # srtp_protect itself refuses this plaintext (e.g. an extension block the RFC 6904 walk cannot parse): not comparable
             if int(o[2], 16) != 0:
                 if ids != "-" and any(h["signature"] == "rfc6904-keystream-not-positional" for h in hits):
                     continue       # same packet as the known RFC 6904 deviation above
